@@ -163,7 +163,7 @@ func allChecksRaw() []*Check {
 				{Name: "C12.rows.2x2", Pkg: "gtree", Entry: "VerifC12Rows", N: 22, FSModel: true, RealParse: true, Expect: []string{"C12.returned", "C12.empty.nil", "C12.accepted.nonempty"}},
 				{Name: "C12.rows.1x2.allbytes", Pkg: "gtree", Entry: "VerifC12Rows", N: 112, FSModel: true, RealParse: true, Expect: []string{"C12.returned", "C12.empty.nil"}},
 			},
-			Bounds: "byte level, real parser: documents of 1 row of 0..3 (quick) / 0..4 (thorough) arbitrary ASCII bytes, 2 rows of 0..2 bytes, 1 row of 0..2 bytes over all 256 values (no \\n: the scanner never delivers one), through 8 sequential entry points (text both routes, JSON, YAML, dry-run, walk, mkdir and verify on the file-system model); plus, at tree level, the empty document and 1..3 blank rows on 9 entry points. A panic or an exceeded step budget (3e6 SSA instructions) on any feasible path is a violation; this is also built into every harness of every other property. Outside: longer rows / more rows at byte level (the DESIGN's 3x5 bound is out of reach: 2 rows x 3 bytes did not finish in 30 min), over-long lines (ErrTooLong only as a symbolic scanner error in C14), massive mode (C10/C11).",
+			Bounds: "byte level, real parser: documents of 1 row of 0..3 (quick) / 0..4 (thorough) arbitrary ASCII bytes, 2 rows of 0..2 bytes, 1 row of 0..2 bytes over all 256 values (no \\n: the scanner never delivers one), through 8 sequential entry points (text both routes, JSON, YAML, dry-run, walk, mkdir and verify on the file-system model) and 2 massive-mode ones (text, walk; FIFO policy); plus, at tree level, the empty document and 1..3 blank rows on 11 entry points (2 of them massive). A panic or an exceeded step budget (3e6 SSA instructions) on any feasible path is a violation; this is also built into every harness of every other property. Outside: longer rows / more rows at byte level (the DESIGN's 3x5 bound is out of reach: 2 rows x 3 bytes did not finish in 30 min), over-long lines (ErrTooLong only as a symbolic scanner error in C14), other massive-mode documents (C10/C11).",
 			Assume: append([]string{fsModel, "real std strings/path/filepath/io/fs code executed on symbolic bytes (leaf intrinsics: bytealg.IndexByteString, CountString, MakeNoZero)"}, commonAssume...),
 		},
 		{
@@ -192,49 +192,53 @@ func allChecksRaw() []*Check {
 		},
 		{
 			ID:    "C06",
-			Files: files([]string{"gtree/common.go", "gtree/progtree.go"}, filesVFS, []string{"gtree/c06.go"}),
+			Files: files([]string{"gtree/common.go", "gtree/progtree.go"}, filesVFS, []string{"gtree/c06.go", "gtree/c07_sym.go", "gtree/c07_native.go", "gtree/c06b.go"}),
 			Quick: []Job{
 				gjf("C06.md.n3", "VerifC06", 3, "C06.nil", "C06.exact.count", "C06.exact.kind", "C06.untouched", "C06.inside", "C06.exists.err", "C06.exists.unchanged"),
 				gjf("C06.root.n3", "VerifC06Root", 3, "C06.root.nil", "C06.root.exact.count", "C06.root.exact.kind", "C06.root.untouched", "C06.root.exists.err", "C06.root.exists.unchanged"),
 				gjf("C06.fault.n3", "VerifC06Fault", 3, "C06.fault.reported/longname", "C06.fault.reported/targetisfile"),
+				gj("C06.bytes.e4n5", "VerifC06Bytes", 45, "C06.bytes.nil", "C06.bytes.file", "C06.bytes.dir", "C06.bytes.dir.made"),
 			},
 			Thorough: []Job{
 				gjf("C06.md.n4", "VerifC06", 4, "C06.nil", "C06.exact.count", "C06.exact.kind", "C06.untouched", "C06.inside", "C06.exists.err", "C06.exists.unchanged"),
 				gjf("C06.root.n4", "VerifC06Root", 4, "C06.root.nil", "C06.root.exact.count", "C06.root.exact.kind", "C06.root.untouched", "C06.root.exists.err", "C06.root.exists.unchanged"),
 				gjf("C06.fault.n4", "VerifC06Fault", 4, "C06.fault.reported/longname", "C06.fault.reported/targetisfile"),
+				gj("C06.bytes.e6n8", "VerifC06Bytes", 68, "C06.bytes.nil", "C06.bytes.file", "C06.bytes.dir", "C06.bytes.dir.made"),
 			},
-			Bounds: "forests of N rows with distinct root names / programs of N nodes (quick 3, thorough 4), names opaque single path elements, 0..2 opaque extensions (suffix tests decided by the solver, so whole-name and overlapping suffixes are included), target present / missing / holding one unrelated file or directory; one root pre-existing as file or directory; refusals: a node with an over-long name (ENAMETOOLONG on every operation touching it), the target being a regular file. Outside: other OS refusals, symlinks, permissions, massive mode (C10).",
+			Bounds: "forests of N rows with distinct root names / programs of N nodes (quick 3, thorough 4), names opaque single path elements, 0..2 opaque extensions (suffix tests decided by the solver, so whole-name and overlapping suffixes are included), target present / missing / holding one unrelated file or directory; one root pre-existing as file or directory; refusals: a node with an over-long name (ENAMETOOLONG on every operation touching it), the target being a regular file. Byte level (file rule on real bytes, no path contracts): root + one child of 5 (quick) / 8 (thorough) arbitrary ASCII name bytes, optionally a grandchild, one extension of 4 / 6 arbitrary bytes, both families. Outside: other OS refusals, symlinks, permissions, massive mode (C10).",
 			Assume: append([]string{parseContract, pathContract, fsModel}, commonAssume...),
 		},
 		{
 			ID:    "C07",
 			Files: []string{"gtree/common.go", "gtree/vfs_native.go", "gtree/c07_sym.go", "gtree/c07_native.go", "gtree/c07.go"},
 			Quick: []Job{
+				gj("C07.1x3", "VerifC07", 13, "C07.reject", "C07.accept", "C07.dryrun.nothing"),
 				gj("C07.2x2", "VerifC07", 22, "C07.inside", "C07.reject", "C07.nothing", "C07.accept", "C07.dryrun.nothing"),
 				gj("C07.2x3", "VerifC07", 23, "C07.inside", "C07.reject", "C07.nothing", "C07.accept", "C07.dryrun.nothing"),
 				gj("C07.LPath.2x2", "VerifLPath", 22, "LPath.join", "LPath.valid", "LPath.fjoin", "LPath.fjoin.trailing"),
 			},
 			Thorough: []Job{
+				gj("C07.1x4", "VerifC07", 14, "C07.reject", "C07.accept", "C07.dryrun.nothing"),
 				gj("C07.3x2", "VerifC07", 32, "C07.inside", "C07.reject", "C07.nothing", "C07.accept", "C07.dryrun.nothing"),
 				gj("C07.2x4", "VerifC07", 24, "C07.inside", "C07.reject", "C07.nothing", "C07.accept", "C07.dryrun.nothing"),
 				gj("C07.LPath.3x3", "VerifLPath", 33, "LPath.join", "LPath.valid", "LPath.fjoin", "LPath.fjoin.trailing"),
 			},
-			Bounds: "byte level: trees of 2 nodes (chain) and 3 nodes (chain, root with two children), every name an arbitrary ASCII byte string (no NUL/newline) of length 1..2/3 (quick) and 1..2 for 3 nodes, 1..4 for 2 nodes (thorough); entry points MkdirFromMarkdown, MkdirFromMarkdown+dry-run, MkdirFromRoot, MkdirFromRoot+dry-run, OutputFromMarkdown+dry-run (the CLI's route), each with and without extension '.x'; real path.Join/Clean, filepath.Join, fs.ValidPath, strings code on symbolic bytes. os.Stat answers 'does not exist'; os.MkdirAll/os.Create record their argument. L-path: Join of 2..3 single-element names is concatenation with '/'. Outside: non-ASCII names, symlinks, massive mode (validation is the same grower code; the pipeline is C10/C11).",
+			Bounds: "byte level: trees of 1 node, 2 nodes (chain) and 3 nodes (chain, root with two children), every name an arbitrary ASCII byte string (no NUL/newline) of length 1..2/3 (quick) and 1..2 for 3 nodes, 1..4 for 2 nodes (thorough); entry points MkdirFromMarkdown, MkdirFromMarkdown+dry-run, MkdirFromRoot, MkdirFromRoot+dry-run, OutputFromMarkdown+dry-run (the CLI's route), MkdirFromMarkdown with the massive option (real pipeline under the FIFO policy) and with massive+dry-run, each with and without extension '.x'; real path.Join/Clean, filepath.Join, fs.ValidPath, strings code on symbolic bytes. os.Stat answers 'exists' for the target directory itself and 'does not exist' otherwise; os.MkdirAll/os.Create record their argument. L-path: Join of 2..3 single-element names is concatenation with '/'. Outside: non-ASCII names, symlinks.",
 			Assume: append([]string{parseContract, "os.Stat -> not exist; os.MkdirAll/Create record the path and succeed (byte-level recorder); lexical confinement only"}, commonAssume...),
 		},
 		{
 			ID:    "C08",
 			Files: files([]string{"gtree/common.go", "gtree/progtree.go"}, filesVFS, []string{"gtree/c06.go", "gtree/c08.go"}),
 			Quick: []Job{
-				gjf("C08.n3", "VerifC08", 3, "C08.readonly", "C08.iff/same", "C08.iff/differs", "C08.type", "C08.sound.missing", "C08.exact.missing", "C08.sound.extra", "C08.exact.extra", "C08.text"),
+				gjf("C08.n3x1", "VerifC08", 13, "C08.readonly", "C08.iff/same", "C08.iff/differs", "C08.type", "C08.sound.missing", "C08.exact.missing", "C08.sound.extra", "C08.exact.extra", "C08.text"),
 				gjf("C08.mkdir.n3", "VerifC08Mkdir", 3, "C08.mkdir.made", "C08.mkdir.verifies", "C08.mkdir.readonly"),
 			},
 			Thorough: []Job{
-				gjf("C08.n3", "VerifC08", 3, "C08.readonly", "C08.iff/same", "C08.iff/differs", "C08.type", "C08.sound.missing", "C08.exact.missing", "C08.sound.extra", "C08.exact.extra", "C08.text"),
+				gjf("C08.n3x2", "VerifC08", 23, "C08.readonly", "C08.iff/same", "C08.iff/differs", "C08.type", "C08.sound.missing", "C08.exact.missing", "C08.sound.extra", "C08.exact.extra", "C08.text"),
 				gjf("C08.mkdir.n4", "VerifC08Mkdir", 4, "C08.mkdir.made", "C08.mkdir.verifies", "C08.mkdir.readonly"),
 			},
-			Bounds: "forests of N=3 rows (distinct roots; From-Markdown forest or From-Root single tree), every downward-closed subset of node paths present, childless present nodes as directory or file (so a root may be a file), 0..2 extra directories at solver-chosen places beneath present directories, strict or not; the verdict, the two lists of the first differing root (set equality, through the error value and its public text) and read-only-ness. Mkdir-then-verify with 0..2 opaque extensions for N=3/4. Outside: N >= 4 for the state-space job (did not finish in 15 min), extra files (the verifier does not look at kinds), massive mode (C10).",
-			Assume: append([]string{parseContract, pathContract, fsModel, "fs.WalkDir modelled as: callback once per entry beneath the root, parents before children, root missing -> callback with fs.ErrNotExist, root a file -> callback with a non-ErrNotExist error"}, commonAssume...),
+			Bounds: "forests of N=3 rows (distinct roots; From-Markdown forest or From-Root single tree), every downward-closed subset of node paths present, childless present nodes as directory or file (so a root may be a file), 0..1 (quick) / 0..2 (thorough) extra entries (directory or regular file, listed by the walk before or after the node's own children) at solver-chosen places beneath present directories, strict or not; the verdict, the two lists of the first differing root (set equality, through the error value and its public text) and read-only-ness. Mkdir-then-verify with 0..2 opaque extensions for N=3/4. Outside: N >= 4 for the state-space job (did not finish in 30 min), massive mode (C10).",
+			Assume: append([]string{parseContract, pathContract, fsModel, "fs.WalkDir modelled as: callback once per entry beneath the root, parents before children, in the order the harness lists them; SkipDir on a directory skips its subtree, on a file the rest of its directory; SkipAll ends the walk; root missing -> callback with fs.ErrNotExist, root a file -> callback with a non-ErrNotExist error"}, commonAssume...),
 		},
 		{
 			ID:    "C09",
@@ -309,14 +313,14 @@ func allChecksRaw() []*Check {
 			ID:    "C17",
 			Files: []string{"gtree/common.go", "gtree/c17.go"},
 			Quick: []Job{
-				{Name: "C17.any.n3", Pkg: "gtree", Entry: "VerifC17", N: 3, FSModel: true, Wasm: true, Expect: []string{"C17.acc.any/text", "C17.acc.any/json", "C17.acc.any/dryrun", "C17.out.any/text", "C17.out.any/json", "C17.out.any/dryrun"}},
+				{Name: "C17.any.n4", Pkg: "gtree", Entry: "VerifC17", N: 4, FSModel: true, Wasm: true, Expect: []string{"C17.acc.any/text", "C17.acc.any/json", "C17.acc.any/dryrun", "C17.out.any/text", "C17.out.any/json", "C17.out.any/dryrun"}},
 				{Name: "C17.wf.n4", Pkg: "gtree", Entry: "VerifC17WF", N: 4, FSModel: true, Wasm: true, Expect: []string{"C17.out.wf/text", "C17.out.wf/json", "C17.out.wf/dryrun"}},
 			},
 			Thorough: []Job{
-				{Name: "C17.any.n4", Pkg: "gtree", Entry: "VerifC17", N: 4, FSModel: true, Wasm: true, Expect: []string{"C17.acc.any/text", "C17.acc.any/json", "C17.acc.any/dryrun", "C17.out.any/text", "C17.out.any/json", "C17.out.any/dryrun"}},
+				{Name: "C17.any.n5", Pkg: "gtree", Entry: "VerifC17", N: 5, FSModel: true, Wasm: true, Expect: []string{"C17.acc.any/text", "C17.acc.any/json", "C17.acc.any/dryrun", "C17.out.any/text", "C17.out.any/json", "C17.out.any/dryrun"}},
 				{Name: "C17.wf.n6", Pkg: "gtree", Entry: "VerifC17WF", N: 6, FSModel: true, Wasm: true, Expect: []string{"C17.out.wf/text", "C17.out.wf/json", "C17.out.wf/dryrun"}},
 			},
-			Bounds: "documents of N rows (quick 3, thorough 4) with every row class (item at any depth 0..N, blank, no bullet, empty text) and well-formed forests of N rows (quick 4, thorough 6); options: text with 4 opaque branch strings, JSON record, dry-run report with 0..1 opaque extension; both variants compiled into one SSA program (the tinywasm file set regenerated from /repo's working tree on every run). Outside: YAML/TOML (absent from the tinywasm variant), cmd/gtree-wasm's JavaScript glue.",
+			Bounds: "documents of N rows (quick 4, thorough 5): item rows at any depth up to two levels below the previous row (level jumps, indented first row), at most one blank / no-bullet / empty-text row at any position; and well-formed forests of N rows (quick 4, thorough 6); options: text with 4 opaque branch strings, JSON record, dry-run report with 0..1 opaque extension; both variants compiled into one SSA program (the tinywasm file set regenerated from /repo's working tree on every run). Outside: YAML/TOML (absent from the tinywasm variant), cmd/gtree-wasm's JavaScript glue.",
 			Assume: append([]string{parseContract, pathContract, encStub, "the tinywasm variant is type-checked and executed as package gtree/zz_verif_wasm with build tag verif standing in for tinywasm (file selection by the original constraints)"}, commonAssume...),
 		},
 	}
